@@ -14,6 +14,8 @@ import (
 
 	"github.com/dave/dst"
 	"github.com/dave/dst/decorator"
+	"github.com/dave/dst/decorator/resolver/goast"
+	"github.com/dave/dst/decorator/resolver/simple"
 
 	"verif/internal/corpus"
 	"verif/internal/fw"
@@ -63,6 +65,19 @@ func c01Entries(ss *sharedSets, name string, src []byte) map[string]struct {
 	add("ParseFile+Restorer.Fprint", o, e)
 	o, e = rtDecoratorParse(src)
 	add("Decorator.Parse+FileRestorer.Fprint", o, e)
+	// an explicit decorator and restorer with import management (only for the synthetic inputs,
+	// whose imports are standard-library packages without dot-imports or duplicates)
+	if strings.HasSuffix(name, "[imports]") && !strings.HasPrefix(name, "snippet-import-names") { // that snippet has imports that are unused as far as a syntax-only resolver can see: import management prunes them
+		if names, ok := corpus.ImportNames(src); ok && !bytes.Contains(src, []byte("\t. \"")) && !bytes.Contains(src, []byte("import . ")) && !dupImport(src) {
+			d := decorator.NewDecoratorWithImports(token.NewFileSet(), "example.com/self", goast.WithResolver(simple.New(names)))
+			f, err := d.Parse(src)
+			if err == nil {
+				var buf bytes.Buffer
+				err = decorator.NewRestorerWithImports("example.com/self", simple.New(names)).Fprint(&buf, f)
+				add("NewDecoratorWithImports+NewRestorerWithImports", buf.Bytes(), err)
+			}
+		}
+	}
 	return res
 }
 
@@ -449,7 +464,7 @@ func runC01(c *fw.Ctx) {
 			c.Count("zoo_entries_not_canonical", 1)
 			continue
 		}
-		checkFile("zoo:"+k, k+".go", src, "zoo")
+		checkFile("zoo:"+k, k+".go[imports]", src, "zoo")
 		if ld := c01WithLineDirective(src); ld != nil && corpus.Canonical(ld) {
 			checkFile("linedirective:zoo:"+k, k+".go", ld, "zoo+line-directive")
 		}
@@ -498,7 +513,7 @@ func runC01(c *fw.Ctx) {
 						continue
 					}
 					seenLadder[string(src)] = true
-					checkFile(fmt.Sprintf("ladder:%s/%d/%d/%d", shape.name, n, im, bm), "ladder.go", src, "comment-ladder")
+					checkFile(fmt.Sprintf("ladder:%s/%d/%d/%d", shape.name, n, im, bm), "ladder.go[imports]", src, "comment-ladder")
 				}
 			}
 		}
